@@ -25,11 +25,13 @@ pub fn case<const N: usize, const CODE: u32, const WORDS: usize>(
     checks: Checks,
     qs: u8,
     max_fault: u32,
+    fork: bool,
 ) {
     let g = graph_from_code::<N>(CODE);
     let af = build::<N>(&g, pres);
     let run = |q: &[usize]| {
         let sh = Rc::new(Shared::default());
+        sh.fork_models.set(fork);
         if max_fault > 0 {
             sh.fail_at.set(1 + nd::below(max_fault));
         }
@@ -56,7 +58,7 @@ pub fn case<const N: usize, const CODE: u32, const WORDS: usize>(
 
 macro_rules! static_harness {
     ($name:ident, n=$n:literal, words=$words:literal, unwind=$unwind:literal, $sem:expr, $enc:expr, $kind:expr, $pres:expr,
-     cert=$cert:expr, $checks:expr, qs=$qs:expr, fault=$fault:expr, codes=[$($code:literal),*]) => {
+     cert=$cert:expr, $checks:expr, qs=$qs:expr, fault=$fault:expr, fork=$fork:expr, codes=[$($code:literal),*]) => {
         #[kani::proof]
         #[kani::stub(alloc::fmt::format, crate::util::fmt_stub)]
         #[kani::stub(std::backtrace::Backtrace::capture, crate::util::bt_stub)]
@@ -66,7 +68,7 @@ macro_rules! static_harness {
             $(
                 {
                     let sp = const { spec_of::<$n>($sem, $code) };
-                    case::<$n, $code, $words>(&sp, $sem, $enc, $kind, $pres, $cert, $checks, $qs, $fault);
+                    case::<$n, $code, $words>(&sp, $sem, $enc, $kind, $pres, $cert, $checks, $qs, $fault, $fork);
                 }
             )*
         }
@@ -74,7 +76,9 @@ macro_rules! static_harness {
 }
 
 // ---- experiments
-static_harness!(e1_pr_se, n=2, words=1, unwind=8, Sem::PR, Enc::AuxAdm, Kind::SE, Pres::Plain, cert=false, ANSWER, qs=NOQ, fault=0, codes=[6]);
-static_harness!(e2_sst_ds, n=2, words=4, unwind=10, Sem::SST, Enc::AuxCo, Kind::DS, Pres::Plain, cert=true, CERT, qs=SINGLES, fault=0, codes=[6]);
-static_harness!(e3_id_se, n=2, words=1, unwind=8, Sem::ID, Enc::AuxCo, Kind::SE, Pres::Plain, cert=false, ANSWER, qs=NOQ, fault=0, codes=[14]);
-static_harness!(e4_st_dc, n=3, words=1, unwind=8, Sem::ST, Enc::Default, Kind::DC, Pres::Plain, cert=true, CERT, qs=SINGLES, fault=0, codes=[42]);
+static_harness!(e1_pr_se, n=2, words=1, unwind=8, Sem::PR, Enc::AuxAdm, Kind::SE, Pres::Plain, cert=false, ANSWER, qs=NOQ, fault=0, fork=false, codes=[6]);
+static_harness!(e2_sst_ds, n=2, words=4, unwind=10, Sem::SST, Enc::AuxCo, Kind::DS, Pres::Plain, cert=true, CERT, qs=SINGLES, fault=0, fork=false, codes=[6]);
+static_harness!(e3_id_se, n=2, words=1, unwind=8, Sem::ID, Enc::AuxCo, Kind::SE, Pres::Plain, cert=false, ANSWER, qs=NOQ, fault=0, fork=false, codes=[14]);
+static_harness!(e4_st_dc, n=3, words=1, unwind=8, Sem::ST, Enc::Default, Kind::DC, Pres::Plain, cert=true, CERT, qs=SINGLES, fault=0, fork=false, codes=[42]);
+static_harness!(f4_st_dc, n=3, words=1, unwind=8, Sem::ST, Enc::Default, Kind::DC, Pres::Plain, cert=true, CERT, qs=SINGLES, fault=0, fork=true, codes=[42]);
+static_harness!(f1_pr_se, n=2, words=1, unwind=8, Sem::PR, Enc::AuxAdm, Kind::SE, Pres::Plain, cert=false, ANSWER, qs=NOQ, fault=0, fork=true, codes=[6]);
